@@ -1207,6 +1207,29 @@ type vfC12Link struct {
 	QueueX float64 // queue in BDP (0 = unlimited)
 	RTTus  int64   // if non-zero: sub-/low-millisecond RTT (overrides RTTms)
 	DurMs  int64   // virtual duration (0 = 20 s)
+	AckN   int     // if non-zero: the receiver acknowledges every AckN packets
+	AggDiv int64   // if non-zero: ACKs are released in bursts every RTT/AggDiv (aggregating return path)
+}
+
+// Fast paths with ordinary RTTs whose sending is TIMER-paced rather than ACK-clocked: between two
+// ACK events (an ACK every 10 packets, or a burst of ACKs every quarter/half RTT, or simply a
+// packet rate far above the ACK rate) the send loop is woken only by the pacer's TimeUntilSend,
+// exactly like quic-go's. A few hundred ms of virtual time = tens of round trips after STARTUP.
+var vfC12TimerLinks = []vfC12Link{
+	{Name: "400Mbit-10ms-ack10", Mbit: 400, RTTus: 10000, DurMs: 400, AckN: 10},
+	{Name: "1Gbit-10ms-ack2", Mbit: 1000, RTTus: 10000, DurMs: 400, AckN: 2},
+	{Name: "200Mbit-30ms-aggQ", Mbit: 200, RTTus: 30000, DurMs: 2400, AckN: 2, AggDiv: 4},
+	{Name: "2.5Gbit-5ms-ack10-q4", Mbit: 2500, RTTus: 5000, QueueX: 4, DurMs: 250, AckN: 10},
+	{Name: "2.5Gbit-10ms-ack2", Mbit: 2500, RTTus: 10000, DurMs: 400, AckN: 2},
+}
+
+var vfC12TimerLinksThorough = []vfC12Link{
+	{Name: "200Mbit-5ms-ack10", Mbit: 200, RTTus: 5000, DurMs: 300, AckN: 10},
+	{Name: "400Mbit-30ms-aggH-q4", Mbit: 400, RTTus: 30000, QueueX: 4, DurMs: 4000, AckN: 2, AggDiv: 2},
+	{Name: "1Gbit-30ms-ack10", Mbit: 1000, RTTus: 30000, DurMs: 1500, AckN: 10},
+	{Name: "1Gbit-10ms-ack10", Mbit: 1000, RTTus: 10000, DurMs: 400, AckN: 10},
+	{Name: "400Mbit-10ms-ack10-aggH", Mbit: 400, RTTus: 10000, DurMs: 400, AckN: 10, AggDiv: 2},
+	{Name: "1Gbit-5ms-ack2-aggQ", Mbit: 1000, RTTus: 5000, DurMs: 300, AckN: 2, AggDiv: 4},
 }
 
 // Short-RTT fast paths (LAN / same rack / same host): BDP far above the initial window although
@@ -1258,9 +1281,9 @@ func TestVerifC12Progress(t *testing.T) {
 	defer k.Finish()
 	agg := vfC12NewAgg()
 	defer agg.finish(k)
-	links := append(append([]vfC12Link{}, vfC12ProgressLinks...), vfC12FastLinks...)
+	links := append(append(append([]vfC12Link{}, vfC12ProgressLinks...), vfC12FastLinks...), vfC12TimerLinks...)
 	if !k.Quick() {
-		links = append(append(links, vfC12ProgressLinksThorough...), vfC12FastLinksThorough...)
+		links = append(append(append(links, vfC12ProgressLinksThorough...), vfC12FastLinksThorough...), vfC12TimerLinksThorough...)
 	}
 	minUtil := map[Profile]float64{}
 	minLink := map[string]float64{} // per profile+link minimum over variants
@@ -1290,6 +1313,12 @@ func TestVerifC12Progress(t *testing.T) {
 					GapEvery: 256, QuicStart: []int64{1280, 1200, 1252}[(li+v)%3], MaxMTU: 1452, PathMTU: []int64{1452, 1500}[(li+v)%2], // probes are never dropped: the path is loss-free
 					PreInstall: r.Intn(4), MaxPkts: congestion.MaxCongestionWindowPackets,
 					DurMs: durMs, PktBudget: 1 << 30, Progress: true,
+				}
+				if l.AckN != 0 {
+					p.AckEvery = l.AckN
+				}
+				if l.AggDiv != 0 {
+					p.AggUs = rttUs / l.AggDiv
 				}
 				if fast := vfC12AckEveryFor(capBps); fast > p.AckEvery {
 					p.AckEvery = fast // keeps ACK events >= 10 us apart on multi-Gbit/s paths
